@@ -105,8 +105,27 @@ class StmtMixin:
     def st_AugAssign(self, s, p):
         cur = self.ev(s.target, p)
         def fin(q, rhs):
-            if isinstance(cur.ty, T.Bag) and isinstance(s.op, ast.Add):
-                raise Unsupported("list += list")
+            if isinstance(s.op, ast.Add) and (isinstance(cur.ty, T.Bag) or cur.ty == T.EMPTYLIST):
+                # list += iterable: multiset union with the elements of the right-hand side
+                c2 = cur
+                if cur.ty == T.EMPTYLIST:
+                    hint = self.cur.locals.get(s.target.id) if isinstance(s.target, ast.Name) else None
+                    if hint is None:
+                        raise Unsupported("`[] += ...` on a list of unknown element type")
+                    c2 = self.coerce(cur, self.parse_ty(hint))
+                bt = c2.ty
+                x = fresh("x", bt.e.sort())
+                nb = fresh("extended", bt.sort())
+                if isinstance(rhs.ty, T.Set) and rhs.ty.e == bt.e:
+                    q.assume(z3.ForAll([x], nb[x] == c2.t[x] + z3.If(rhs.t[x], 1, 0), patterns=[nb[x]]))
+                    q.assume(bt.blen()(nb) == bt.blen()(c2.t) + rhs.ty.card()(rhs.t))
+                elif isinstance(rhs.ty, T.Bag) and rhs.ty.e == bt.e:
+                    q.assume(z3.ForAll([x], nb[x] == c2.t[x] + rhs.t[x], patterns=[nb[x]]))
+                    q.assume(bt.blen()(nb) == bt.blen()(c2.t) + bt.blen()(rhs.t))
+                else:
+                    raise Unsupported(f"list += {rhs.ty}")
+                self.store(s.target, T.scalar(bt, nb), q)
+                return [(q, "next")]
             v = self.binop(s.op, cur, rhs, q, f"line {s.lineno}")
             if cur.ty == T.REAL and v.ty == T.INT:
                 v = self.coerce(v, T.REAL)
